@@ -165,8 +165,21 @@ def _has_svg(font, g):
     return any(s <= gid <= e for _, s, e in oracle_otsvg.svg_records(font))
 
 
-def thirdparty_font(sc, r, version=1, kerning=True, n_palettes=1):
-    """MaxColor.tla scenario -> a third-party-style COLR font with exactly that glyph order and colour set."""
+def _single_clip(t, under=False):
+    """paint trees whose layers are clipped by exactly one glyph (the layer comparison handles one clip per layer)"""
+    if t["k"] in ("solid", "grad"):
+        return True
+    if t["k"] == "glyph":
+        return not under and _single_clip(t["ch"], True)
+    if t["k"] == "layers":
+        return all(_single_clip(c, under) for c in t["ch"])
+    return _single_clip(t["ch"], under)
+
+
+def thirdparty_font(sc, r, version=1, kerning=True, n_palettes=1, trees=None):
+    """MaxColor.tla scenario -> a third-party-style COLR font with exactly that glyph order and colour set.  With
+    `trees` (paint graphs exported by ColrToSvg.tla) the colour glyphs carry arbitrary supported paint graphs: nested
+    non-commuting transforms, colour-glyph references, opacity groups."""
     b = TP.Builder(r, n_palettes=n_palettes, with_space=False)
     b.order = [".notdef"]
     outlines = []
@@ -190,6 +203,16 @@ def thirdparty_font(sc, r, version=1, kerning=True, n_palettes=1):
         o1, o2 = b.add_outline(), b.add_outline()
         if version == 0:
             b.colr[name] = [(o1, r.randrange(4)), (o2, r.randrange(4))]
+        elif trees:
+            subs = {}
+            tree = trees[len(b.colr) % len(trees)]
+            # model tokens a/b -> translate / scale (do not commute), c.. -> random transform paints
+            b.colr[name] = TP.paint_from_tree(tree, b, r, {"a": "a", "b": "b"}, subs)
+            for sname, sp in subs.items():
+                b.order.append(sname)
+                b.glyphs[sname] = TP._glyph([])
+                b.adv[sname] = 1000
+                b.colr[sname] = sp
         else:
             b.colr[name] = {"Format": 1, "Layers": [
                 {"Format": 10, "Glyph": o1, "Paint": TP.solid(r)},
@@ -227,6 +250,25 @@ def run(chk):
     flagsets = [["--keep_glyph_names"], ["--keep_glyph_names", "--bitmaps"], [], ["--keep_glyph_names"]]
     for k, sc in enumerate(ok_recs[: (4 if quick else 40)]):
         jobs.append(("thirdparty", k, sc, flagsets[k % 4], 1 if k % 3 else 0))
+    # arbitrary supported paint graphs: the trees ColrToSvg.tla enumerates (nested transforms, references, groups)
+    tres = common.run_tlc("ColrToSvg", "ColrToSvg.cfg", timeout=900, coverage=False)
+    chk.add_tlc(tres, "ColrToSvg.cfg (paint graphs for the third-party fonts)")
+    trees = [x["root"] for x in tres.records if _single_clip(x["root"]) and x["root"]["k"] in ("layers", "xf", "glyph", "group")]
+    def nested_distinct(t):
+        """some transform directly over a different transform (their order is observable)"""
+        if t["k"] in ("solid", "grad"):
+            return False
+        if t["k"] == "layers":
+            return any(nested_distinct(c) for c in t["ch"])
+        if t["k"] == "xf" and t["ch"]["k"] == "xf" and t["ch"]["t"] != t["t"]:
+            return True
+        return nested_distinct(t["ch"])
+
+    deep = [t for t in trees if nested_distinct(t)]
+    if len(deep) < 6:
+        raise MachineryError(f"too few paint graphs with nested transforms ({len(deep)})")
+    for k, sc in enumerate(ok_recs[4: 4 + (6 if quick else 60)]):
+        jobs.append(("thirdparty-graphs", k, sc, [["--keep_glyph_names"], []][k % 2], 1))
     nano = [("glyf_colr_1", ["--keep_glyph_names"]), ("picosvg", ["--keep_glyph_names", "--bitmaps"]), ("glyf_colr_0", []),
             ("picosvg", ["--colr_version", "0", "--keep_glyph_names"]), ("untouchedsvg", ["--keep_glyph_names"]),
             ("glyf_colr_1", ["--bitmaps"])]
@@ -237,7 +279,10 @@ def run(chk):
             kind, k, what, flags, version = job
             r = common.rng("C12", kind, k)
             if kind.startswith("thirdparty"):
-                data = thirdparty_font(what, r, version=version, n_palettes=1 + k % 2)
+                tr = None
+                if kind == "thirdparty-graphs":
+                    tr = [deep[(7 * k + j) % len(deep)] for j in range(2)] + [r.choice(trees) for _ in range(2)]
+                data = thirdparty_font(what, r, version=version, n_palettes=1 + k % 2, trees=tr)
                 return job, run_maximum_color(work / f"{kind}-{k}", None, flags, r, font_bytes=data)
             return job, run_maximum_color(work / f"{kind}-{k}", what, flags, r)
 
